@@ -132,6 +132,12 @@ theorem SSim.consRowId {s₁ s₂ : St} (h : SSim P X s₁ s₂) (id : Str) (hid
     rcases hp with hp | hp
     · rw [hp]; exact hid0
     · exact h.rk p hp
+  · intro x hx
+    rw [e2] at hx
+    rw [f2, lookupIn_cons]
+    have h1 : id ≠ x := hx (id, g) (by simp)
+    simp only [h1, if_false]
+    exact h.rk2 x (fun p hp => hx p (by simp [hp]))
   · rw [e3, f3]; exact h.nm
   · rw [e3]; exact h.nmDN
 
